@@ -1,13 +1,17 @@
 package main
 
 // C03 — a failed operation is contained; --atomic restores the last good state.
-// Histories = fault-free prefix of 0-3 real operations followed by one install / upgrade /
-// rollback that carries exactly ONE cluster-side fault (a rejected create / patch / delete /
-// get of one resource, the readiness wait failing, the n-th watch of one hook failing),
-// enumerated over every fault position of that operation and the flag combinations
-// atomic / cleanup-on-fail / no-hooks.  The ledger, the cluster objects, the outcome class
-// and the trace are compared with Engine/Seq.v; the property clauses are evaluated directly
-// on the observations by c03_oracle.go.
+// Histories = prefix of 0-4 real operations followed by one install / upgrade / rollback that
+// carries exactly ONE cluster-side fault (a rejected create / patch / delete / get of one
+// resource, the readiness wait failing, the n-th watch of one hook failing), enumerated over
+// every fault position of that operation and the flag combinations atomic / cleanup-on-fail /
+// no-hooks.  The prefix is fault-free, or every operation of it carries a single fault of its
+// own (c03_multi.go: failed upgrades / rollbacks / installs, a crashed and recovered upgrade),
+// so that the operation under test starts from the ledgers failures leave behind.  The ledger,
+// the cluster objects, the outcome class and the trace of EVERY step are compared with
+// Engine/Seq.v; the property clauses are evaluated directly on the observations by
+// c03_oracle.go, the "most recent revision that had been deployed" being tracked over the whole
+// history.
 
 import (
 	"encoding/json"
@@ -30,9 +34,15 @@ func (*c03) CoqImport() string {
 func (*c03) Rule() string {
 	return "enumerated part: install {a,b,s}+3 hooks then upgrade to {a',c} (drops b,s; adds c) / install alone, the last operation carrying every single " +
 		"fault position (every resource key of the old and new manifest x {create,patch,delete,get}, every hook x watch 0/1, the wait with and without " +
-		"wait-for-jobs) x every combination of atomic / cleanup-on-fail / no-hooks; install, upgrade, then rollback with every position x cleanup/no-hooks; generated part: fault-free prefix of 0-3 operations from eng.GenHistory (5-resource pool, <=3 hooks, random flags), " +
-		"then install (1/5) / upgrade (3/5) / rollback (1/5) with <=4 resources, <=3 hooks, random atomic/cleanup/no-hooks and one fault position drawn " +
-		"uniformly; no keep annotations, no storage faults, no crash; non-trivial = the fault was hit (a request was rejected, the wait or the hook watch failed)"
+		"wait-for-jobs) x every combination of atomic / cleanup-on-fail / no-hooks; install, upgrade, then rollback with every position x cleanup/no-hooks; " +
+		"histories with SEVERAL faulted operations: 11 prefixes that end in the ledgers failed operations leave behind (failed rollback by update / wait / hook, " +
+		"uninstall --keep-history + failed install --replace, failed first install, failed upgrade + failed rollback, two failed upgrades, K6 abort, crash + " +
+		"rollback, restored atomic upgrade, failed then successful upgrade; five of them without a deployed revision or with a superseded revision that was " +
+		"never deployed) x atomic / non-atomic / cleanup upgrade, rollback, install --replace with wait / patch / create / hook faults (thorough: every position " +
+		"x every flag set); generated part: prefix of 0-4 operations from eng.GenHistory (5-resource pool, <=3 hooks, random flags), fault-free in one half and " +
+		"with a cluster fault of its own on 3/4 of the operations in the other half, then install (1/5) / upgrade (3/5) / rollback (1/5) with <=4 resources, " +
+		"<=3 hooks, random atomic/cleanup/no-hooks and one fault position drawn uniformly; no keep annotations, no storage faults, crashes only in the " +
+		"crash-rb prefix; non-trivial = the fault of the last faulted operation was hit (a request was rejected, the wait or the hook watch failed)"
 }
 
 func (*c03) Decode(raw json.RawMessage) (any, error) {
@@ -92,6 +102,24 @@ func (*c03) Corpus() []any {
 	// (CREATE a rejected), the automatic uninstall cannot create hx again (409) and aborts: history 1:uninstalling
 	k9 := []eng.Hook{hk("hx", 0, []string{"pre-install", "pre-delete"}, "hook-failed")}
 	out = append(out, hist(withK(c12Op("install", 1, eng.Flags{Atomic: true}, k9, "a"), "create", "ConfigMap/a")))
+	// ---- histories with more than one fault ----
+	a1 := c12Op("install", 1, eng.Flags{}, nil, "a")
+	a2 := c12Op("upgrade", 2, eng.Flags{}, nil, "a")
+	a4 := func(f eng.Flags) *eng.Op { o := *c12Op("upgrade", 4, f, nil, "a"); o.WaitFail = true; return &o }
+	// no revision is deployed when the atomic upgrade fails: install; upgrade; rollback with PATCH a rejected
+	// (1:superseded 2:superseded 3:failed); upgrade --atomic whose wait fails => 5:deployed with the manifest of 2,
+	// the most recent revision that had been deployed (seeded C03-7 narrows the candidates to deployed ones)
+	out = append(out, hist(a1, a2, withK(c12Op("rollback", 0, eng.Flags{}, nil), "patch", "ConfigMap/a"), a4(eng.Flags{Atomic: true})))
+	// ... and the non-atomic upgrade on the same ledger: 4:failed, nothing else changes
+	out = append(out, hist(a1, a2, withK(c12Op("rollback", 0, eng.Flags{}, nil), "patch", "ConfigMap/a"), a4(eng.Flags{})))
+	// K11: install; upgrade whose wait fails (2:failed, never deployed); rollback to 1 with PATCH a rejected marks the
+	// CURRENT revision 2 superseded; upgrade --atomic whose wait fails rolls back to 2, not to 1
+	a2f := *a2
+	a2f.WaitFail = true
+	out = append(out, hist(a1, &a2f, withK(c12Op("rollback", 0, eng.Flags{Version: 1}, nil), "patch", "ConfigMap/a"), a4(eng.Flags{Atomic: true})))
+	// two failed non-atomic operations in a row (the witness of C03_history_contained_example): 1:deployed 2:failed 3:failed
+	out = append(out, hist(ab(eng.Flags{}), withK(c12Op("upgrade", 2, eng.Flags{}, nil, "a", "c"), "create", "ConfigMap/c"),
+		a4(eng.Flags{})))
 	return out
 }
 
@@ -137,7 +165,19 @@ func (*c03) Class(ci, oi any) string {
 	if i < len(o.Steps) && c03Hit(op, o.Steps[i], o.Reqs[i]) {
 		hit = "hit"
 	}
-	return fmt.Sprintf("%s/%s/%s/%s", op.Kind, f, fl, hit)
+	// how many operations of the history carry a fault, and whether a revision was deployed when the last one started
+	dep := "nodep"
+	if i > 0 && i-1 < len(o.Steps) {
+		for _, r := range o.Steps[i-1].Ledger {
+			if r.Status == "deployed" {
+				dep = "dep"
+			}
+		}
+	}
+	if i == 0 {
+		dep = "empty"
+	}
+	return fmt.Sprintf("%s/%s/%s/%s/f%d/%s", op.Kind, f, fl, hit, c03FaultCount(h), dep)
 }
 
 func (*c03) NonTrivial(ci, oi any) bool {
